@@ -11,7 +11,7 @@ EXPLANATION = ("Bounded symbolic execution of the MIR of exclusively_owned_areas
                "area / emptiness test a changed implementation might perform); the share is own_area / (box area + EPS) clamped "
                "to 1, hence in [0,1] for a non-negative own area. The pre-filter's soundness on overlapping boxes is the Kani "
                "harness shared with C08. The correctness and robustness of geo's BooleanOps::difference itself is outside.")
-ASSUMPTIONS = ["2..3 boxes (thorough: 4); too_far is an arbitrary symmetric relation on unordered pairs (its soundness: harness c08_too_far_sound_grid)",
+ASSUMPTIONS = ["2..3 boxes (thorough: 4) whose coordinates may coincide exactly (duplicated boxes); too_far is an arbitrary symmetric relation on unordered pairs (its soundness: harness c08_too_far_sound_grid)",
                "geo::BooleanOps::difference, Polygon::from(&box), MultiPolygon::from and unsigned_area are uninterpreted (difference returns a fresh value depending on both arguments; areas are values of an exact non-negative grid)",
                "rayon par_iter().enumerate().map().collect() = the sequential map (its contract)"]
 OUTSIDE = ["geo's polygon difference (sweep-line f64 code of a third-party crate): that the uncovered fraction is computed correctly for rotated / degenerate inputs is NOT claimed",
@@ -24,10 +24,15 @@ KANI = [KH("c08_geometry::c08_too_far_sound_grid", "quick", 1800,
 
 def _calls(P):
     def idx(vm, ref):
-        b = ref
-        while isinstance(b, Ref):
-            b = vm.deref(b)
-        return int(z3_to_np(b.fields[0], F32))
+        # boxes are identified by the cell they live in (their VALUES may coincide: duplicated boxes are in scope)
+        r = ref
+        while isinstance(r, Ref) and isinstance(vm.deref(r), Ref):
+            r = vm.deref(r)
+        cells = vm.notes['box_cells']
+        for k, c in enumerate(cells):
+            if isinstance(r, Ref) and r.cell is c:
+                return k
+        raise Unmodelled("box argument that is not one of the input boxes")
 
     def too_far(vm, cal, args):
         i, j = idx(vm, args[0]), idx(vm, args[1])
@@ -103,7 +108,9 @@ def _calls(P):
 def _mk_own(n):
     def q(vm, P):
         fn = P.free['exclusively_owned_areas'][0]
-        boxes = [Cell(Adt('Universal2DBox', 0, (f32(float(i)), f32(0.0), NONE, f32(1.0), f32(1.0), f32(1.0), NONE)), 'box%d' % i) for i in range(n)]
+        # coordinates from a two-point grid: boxes may coincide exactly (duplicates) or differ
+        boxes = [Cell(Adt('Universal2DBox', 0, (grid_f32(vm, 'xc%d' % i, [0.0, 1.0]), f32(0.0), NONE, f32(1.0), f32(1.0), f32(1.0), NONE)), 'box%d' % i) for i in range(n)]
+        vm.notes['box_cells'] = boxes
         far = {(i, j): vm.fresh('bool', 'too_far_%d_%d' % (i, j)) for i in range(n) for j in range(i + 1, n)}
         vm.notes.update(far=far, n=n)
         arg = Ref(Cell(VecV(tuple(Ref(b) for b in boxes), 'slice'), 'boxes'))
@@ -133,6 +140,7 @@ def q_shares(vm, P):
     hs = [grid_f32(vm, 'height%d' % i, [0.5, 1.0, 2.0, 8.0]) for i in range(n)]
     asp = [grid_f32(vm, 'aspect%d' % i, [0.5, 1.0, 4.0]) for i in range(n)]
     boxes = [Cell(Adt('Universal2DBox', 0, (f32(float(i)), f32(0.0), NONE, asp[i], hs[i], f32(1.0), NONE)), 'box%d' % i) for i in range(n)]
+    vm.notes['box_cells'] = boxes
     polys = VecV(tuple(Adt('MP', 0, (Opaque('PolyList', ('box%d' % i, ())),)) for i in range(n)), 'slice')
     vm.notes.update(n=n)
     r = vm.exec_fn(fn, [Ref(Cell(VecV(tuple(Ref(b) for b in boxes), 'slice'), 'boxes')), Ref(Cell(polys, 'polys'))], {})
@@ -202,3 +210,8 @@ MIR = [
     MQ("c15_shares", "quick", q_shares, "share = own area / (box area + EPS) clamped to 1, in [0,1]", "2 boxes, heights/aspects from exact grids, own area from {0,.25,1,3.5,16,64,1000}",
        [F + "exclusively_owned_areas_normalized_shares"], spec_calls=_calls, replay=_replay_own),
 ]
+
+
+# polygon generation the clipping starts from (never a stale cached polygon): same obligations as C08 / C19
+import C08 as _c08
+MIR += [q for q in _c08.MIR if q.name in ('c08_polygon_from', 'c08_gen_vertices')]
